@@ -553,6 +553,7 @@ func genC07(c *Ctx) {
 	for i := 0; i < 240*c.scale; i++ {
 		s := randSquareCase(c, r, false, true)
 		c.add("build", argsOf(s)...)
+		c.add("specbuild", argsOf(s)...)
 		wit := map[string]any{"case": s.shape()}
 		sq, kept, err := keptCase(s)
 		if !c.check(err == nil, "Build", "error", wit) {
@@ -578,6 +579,7 @@ func genC07(c *Ctx) {
 		sq2, err := square.Construct(refKept, s.max, s.thr)
 		c.check(err == nil && eqShares(ref, sq2), "Construct", "square differs from the specified layout", wit)
 		c.add("construct", strconv.Itoa(s.max), strconv.Itoa(s.thr), joinHexList(refKept))
+		c.add("specconstruct", strconv.Itoa(s.max), strconv.Itoa(s.thr), joinHexList(refKept))
 		if len(pfbs) > 0 {
 			c.mark(s.shape())
 		}
